@@ -247,6 +247,9 @@ pub fn history(dom: &Domain, seed: u64, hist: u64, sock_dir: &str, out: &mut dyn
         if dom.flush && !settling {
             cands.push((1, json!({"e": "flush"})));
         }
+        if d.held.len() >= 2 {
+            cands.push((2, json!({"e": "respond_many", "n": rng.gen_range(2..5)})));
+        }
         if dom.setlimit && !settling {
             cands.push((3, json!({"e": "setlimit", "limit": obs::digits(*[0u128, 3, 20, 51200].choose(&mut rng).unwrap())})));
         }
